@@ -36,16 +36,22 @@ theorem set_progress_clamps (c : Config) (s : State) (t : Nat) (k : Int) :
     (step c s (.setProgress k) t).st.max = (if s.max ≠ 0 ∧ k > (s.max : Int) then k.toNat else s.max) :=
   setProgress_step_max c s t k
 
-/-- **Bar width.**  Whenever the three bar characters are single characters, the bar segment of
-every frame drawn in any history is exactly as wide as configured (`placeholder_bar`: this is
-the text the `%bar%` placeholder is replaced by). -/
-theorem bar_width (c : Config) (hc : SingleChars c) (s0 : State) (ops : List (Op × Nat)) :
-    ∀ e ∈ run c s0 ops, ∀ f b, e.res.frame = some f → f.bar = some b → b.length = c.barWidth := by
+/-- **Bar width.**  Whenever the three bar characters are single characters (and the configured
+width is below `2^52`, so that it is a binary64 number), the bar segment of every frame drawn in
+any history is exactly as wide as configured (`placeholder_bar`: this is the text the `%bar%`
+placeholder is replaced by).  The offset `floor(self._percent * bar_width)` is computed in
+correctly rounded binary64 arithmetic (`roundQ`); that it cannot exceed the width is proved
+(`offset_le_width`), not assumed. -/
+theorem bar_width (c : Config) (hc : SingleChars c) (hw : c.barWidth < 2 ^ 52) (m : Int) (t0 : Nat)
+    (ops : List (Op × Nat)) :
+    ∀ e ∈ run c (init m t0) ops, ∀ f b, e.res.frame = some f → f.bar = some b →
+      b.length = c.barWidth := by
   intro e he f b hf hb
-  rw [run_event c s0 ops e he] at hf
-  obtain ⟨s', hs'⟩ := step_frameOf c e.pre e.op e.t f hf
+  have hp := (run_invariant c PctInv (fun s op t h => step_pct c s op t h) _ ops (init_pct m t0) e he).1
+  rw [run_event c _ ops e he] at hf
+  obtain ⟨s', hp', hs'⟩ := step_frameOf c e.pre e.op e.t f hp hf
   rw [hs'] at hb
-  exact frameOf_bar_length c s' f.text b hc hb
+  exact frameOf_bar_length c s' f.text b hc hp' hw hb
 
 /-- **Exact percentage.**  Every frame shows the step and the maximum of the state the call
 leaves behind, its percentage is `⌊100·step/max⌋`, and it is 100 exactly when step = max. -/
